@@ -179,6 +179,7 @@ def run(v, tier, seed):
                 else:
                     wirelib.report_rows(v, rows, "concurrent round trips under ThreadSanitizer", "tsan")
                     mt["thread_sanitizer"] = {"round_trips": [r for r in rows if r.get("summary")][0]["round_trips"], "reports": 0}
+                    if not v.violations: os.remove(rep3)
         with lock: heapnotes["concurrent_round_trips"] = mt
         if not v.violations:
             os.remove(vf); os.remove(rep)
